@@ -9,7 +9,7 @@ use std::{
     cell::RefCell,
     collections::BTreeSet,
     fs,
-    io::{self, BufWriter},
+    io::{self, BufWriter, Write},
     path::Path,
     sync::Arc,
     time,
@@ -478,6 +478,8 @@ impl Writer {
                         &mut merge_datafile_writer,
                     )?
                 };
+                // The copy must be in the file before anything (KeyDir, hint file) points to it
+                merge_datafile_writer.flush()?;
 
                 // update keydir so it points to the merge data file
                 keydir_entry.fileid = merge_fileid;
